@@ -29,3 +29,40 @@ Example C12_example :
   flat_map (reply_id unit bool) (snd (run nat unit bool (fun _ _ => tt) tt (fun o => match o with Some _ => true | None => false end) false [] ms))
   = [5%N; 6%N; 7%N].
 Proof. vm_compute. reflexivity. Qed.
+
+(* the life of the process: after any messages, shutdown followed by exit ends it with status 0, everything the messages
+   call for written and the shutdown request answered -- whatever the client sends after the exit notification *)
+Theorem C12_shutdown_then_exit_ends_cleanly :
+  forall (text D T : Type) diag no_diag tokens null_tokens (ms : list (msg text)) (d : docs text) id rest,
+  session text D T diag no_diag tokens null_tokens d (map (Msg text) ms ++ Shutdown text id :: Exit text :: rest)
+  = mkEnded D T (snd (run text D T diag no_diag tokens null_tokens d ms)) (Some id) true.
+Proof. exact session_shutdown_exit. Qed.
+
+(* ... and the status is 0 only then: never after an exit without shutdown, an input that ends, or a shutdown request
+   followed by anything but the exit notification *)
+Theorem C12_clean_end_iff_shutdown_then_exit :
+  forall (text D T : Type) diag no_diag tokens null_tokens (fs : list (frame text)) (d : docs text),
+  e_clean D T (session text D T diag no_diag tokens null_tokens d fs) = true
+  <-> exists ms id rest, fs = map (Msg text) ms ++ Shutdown text id :: Exit text :: rest.
+Proof. exact session_clean_iff. Qed.
+
+(* however the process ends: the requests read before the end are answered once each and in order, what was written is
+   what the message loop writes for the messages read, the shutdown request is answered exactly when it is reached *)
+Theorem C12_answers_up_to_the_end :
+  forall (text D T : Type) diag no_diag tokens null_tokens (fs : list (frame text)) (d : docs text),
+  flat_map (reply_id D T) (e_out D T (session text D T diag no_diag tokens null_tokens d fs))
+    = flat_map (request_id text) (served text fs)
+  /\ e_shutdown D T (session text D T diag no_diag tokens null_tokens d fs) = reached_shutdown text fs
+  /\ e_out D T (session text D T diag no_diag tokens null_tokens d fs)
+    = snd (run text D T diag no_diag tokens null_tokens d (served text fs)).
+Proof. exact session_replies. Qed.
+
+Example C12_life_example :
+  let S := session nat unit bool (fun _ _ => tt) tt (fun o => match o with Some _ => true | None => false end) false [] in
+  let q := Msg nat (OtherRequest nat 5) in
+  (e_clean unit bool (S [q; Shutdown nat 7; Exit nat; q]), e_shutdown unit bool (S [q; Shutdown nat 7; Exit nat; q])) = (true, Some 7%N) /\
+  e_clean unit bool (S [q; Exit nat; Shutdown nat 7; Exit nat]) = false /\
+  e_shutdown unit bool (S [q; Exit nat; Shutdown nat 7; Exit nat]) = None /\
+  e_clean unit bool (S [Shutdown nat 7; q; Exit nat]) = false /\
+  e_clean unit bool (S [q]) = false.
+Proof. vm_compute. repeat split; reflexivity. Qed.
